@@ -186,6 +186,10 @@ pub fn negative_table() -> Vec<Negative> {
                 "cc[1].v".into(),
                 "mc[1].v".into(),
             ));
+            // const that comes from a typedef, alone and next to another modifier at the use site
+            forms.push(("write-to-const-typedef-local", format!("typedef const {} CT;\ntypedef {} MT;\n", t, t), format!("CT c = {}; MT m = {};", v1, v1), "c".into(), "m".into()));
+            forms.push(("write-to-volatile-const-typedef-local", format!("typedef const {} CT;\ntypedef {} MT;\n", t, t), format!("{} src = {}; volatile CT c = src; volatile MT m = src;", t, v1), "c".into(), "m".into()));
+            forms.push(("write-to-const-typedef-array-element", format!("typedef const {} CT;\ntypedef {} MT;\n", t, t), format!("CT c[2] = {{ {}, {} }}; MT m[2] = {{ {}, {} }};", v1, v1, v1, v1), "c[1]".into(), "m[1]".into()));
             // shader inputs: globals without a storage class, and with an explicit `extern`, are read-only
             forms.push(("write-to-uniform-global", format!("{} gu = {};\nstatic {} gsm = {};\n", t, v1, t, v1).replace(&format!("{} gu = {};", t, v1), &format!("{} gu;", t)), String::new(), "gu".into(), "gsm".into()));
             forms.push(("write-to-explicitly-extern-global", format!("extern {} ge;\nstatic {} gsm = {};\n", t, t, v1), String::new(), "ge".into(), "gsm".into()));
